@@ -536,6 +536,121 @@ def g5(rep, src):
             rep.violation("G5", nm, "%s post-processes the visitor's result with %s" % (nm, bad), f.where())
 
 
+ACCEPTABLE = {
+    # labels that give the guarantee the request asks for (reviewed against the doc comments of Property and of the entry points)
+    "rewrite_with_differential_privacy": {"Public", "Published", "DifferentiallyPrivate", "SyntheticData"},
+    "rewrite_as_privacy_unit_preserving": {"Public", "PrivacyUnitPreserving"},
+}
+# the ranking the score encodes: exact data beats a DP result, which beats a privacy-unit-preserving intermediate,
+# which beats falling back on synthetic data / re-using a published result; Private scores nothing
+SCORE_ORDER = [("Public", "DifferentiallyPrivate"), ("DifferentiallyPrivate", "PrivacyUnitPreserving"), ("PrivacyUnitPreserving", "SyntheticData"),
+               ("PrivacyUnitPreserving", "Published"), ("SyntheticData", "Private"), ("Published", "Private")]
+PROPS = ("Private", "SyntheticData", "PrivacyUnitPreserving", "DifferentiallyPrivate", "Published", "Public")
+
+
+def prop_arms(m):
+    """match on a Property -> {variant: arm body}, default arm body"""
+    out, default = {}, None
+    for a in m["arms"]:
+        pats = a["pat"]["cases"] if a["pat"]["k"] == "or" else [a["pat"]]
+        for p in pats:
+            if p["k"] == "wild":
+                default = a["body"]
+            else:
+                pn = (path_of(p) or show(p, 0)).split("::")[-1]
+                out[pn] = a["body"]
+    return out, default
+
+
+def g6(rep, src):
+    rep.rule(
+        "G6",
+        "acceptable roots: the filter of each entry point keeps exactly the reviewed set of root labels (DP request: Public, Published, DifferentiallyPrivate, SyntheticData; "
+        "privacy-unit request: Public, PrivacyUnitPreserving), guarded by nothing else",
+        floor=2,
+        necessary="a missing label makes the compiler report 'unreachable' although a consistent derivation with an acceptable root exists (a public-only query under a DP request); an extra label returns a rewriting whose root is not acceptable",
+    )
+    for name, want in ACCEPTABLE.items():
+        f = src.one_fn(name=name, file="rewriting/mod.rs")
+        fm = [m for m in find(f.body, "mcall") if m["m"] in ("filter_map", "filter")]
+        if len(fm) != 1 or fm[0]["args"][0]["k"] != "closure":
+            rep.undecidable("G6", name, "expected one filter_map/filter closure over the candidates", f.where())
+            continue
+        ms = list(find(fm[0]["args"][0]["body"], "match"))
+        if len(ms) != 1 or "output" not in show(ms[0]["e"], 0):
+            rep.undecidable("G6", name, "the acceptance filter is not one match on rwrr.attributes().output()", f.where())
+            continue
+        arms, default = prop_arms(ms[0])
+        guards = [a for a in ms[0]["arms"] if a.get("guard") is not None]
+        acc = set()
+        for v in PROPS:
+            b = arms.get(v, default)
+            if b is None:
+                continue
+            t = show(b, 0).strip()
+            if t != "None" and not t.startswith("None"):
+                acc.add(v)
+        rep.instance("G6", name, {"entry": name, "accepted": sorted(acc), "expected": sorted(want)})
+        if guards:
+            rep.undecidable("G6", name, "guarded arm in the acceptance filter", f.where())
+        for v in sorted(want - acc):
+            rep.violation("G6", name + ":missing:" + v, "%s refuses root label %s: a request with such a derivation is reported unreachable" % (name, v), f.where())
+        for v in sorted(acc - want):
+            rep.violation("G6", name + ":extra:" + v, "%s accepts root label %s, which does not give the requested guarantee" % (name, v), f.where())
+
+
+def g7(rep, src):
+    rep.rule(
+        "G7",
+        "score: Score::visit is additive over ALL children (fold over acceptor.inputs() adding dependencies.get(child)) starting from a weight chosen by the node's own output label, "
+        "and the weights respect the reviewed ranking Public > DifferentiallyPrivate > PrivacyUnitPreserving > {SyntheticData, Published} > Private = 0",
+        floor=1 + len(SCORE_ORDER),
+        necessary="the arg-max of G3 is only 'best-scoring' if the number it compares is the documented score; a weight table that ranks a Published/synthetic fallback like exact public data selects a derivation that a strictly better one beats",
+    )
+    fs = [f for f in src.find_fns(name="visit", file=RR) if (f.self_ty or "").endswith("Score")]
+    if len(fs) != 1:
+        rep.error("G7: expected one Score::visit, found %d" % len(fs))
+        return
+    f = fs[0]
+    folds = [m for m in find(f.body, "mcall") if m["m"] == "fold"]
+    if len(folds) != 1 or len(folds[0]["args"]) != 2:
+        rep.undecidable("G7", "Score::visit", "not a single fold", f.where())
+        return
+    fold = folds[0]
+    recv = show(fold["recv"], 0).replace(" ", "")
+    init, cl = fold["args"]
+    ok_recv = recv in ("acceptor.inputs().iter()", "acceptor.inputs().into_iter()")
+    body = show(cl["body"], 0).replace(" ", "") if cl["k"] == "closure" else ""
+    ps = [p.get("name") for p in cl.get("params", [])] if cl["k"] == "closure" else []
+    ok_add = len(ps) == 2 and body in ("%s+dependencies.get(%s.deref())" % (ps[0], ps[1]), "%s+dependencies.get(%s)" % (ps[0], ps[1]), "dependencies.get(%s.deref())+%s" % (ps[1], ps[0]))
+    rep.instance("G7", "Score::visit:additive", {"over": recv, "step": body})
+    if not ok_recv:
+        rep.violation("G7", "Score::visit:additive", "the score does not fold over all of acceptor.inputs() (%s)" % recv, f.where())
+    if not ok_add:
+        rep.violation("G7", "Score::visit:additive", "the fold step is not sum + dependencies.get(child): %s" % body, f.where())
+    if init["k"] != "match" or "acceptor.attributes().output()" not in show(init["e"], 0).replace(" ", ""):
+        rep.undecidable("G7", "Score::visit:weights", "the initial value is not a match on the node's own output label", f.where())
+        return
+    arms, default = prop_arms(init)
+    w = {}
+    for v in PROPS:
+        b = arms.get(v, default)
+        try:
+            w[v] = float(show(b, 0).strip().rstrip("f64").rstrip("_")) if b is not None else None
+        except ValueError:
+            w[v] = None
+    if any(x is None for x in w.values()):
+        rep.undecidable("G7", "Score::visit:weights", "non-literal weight: %s" % w, f.where())
+        return
+    for hi, lo in SCORE_ORDER:
+        key = "Score:%s>%s" % (hi, lo)
+        rep.instance("G7", key, {"hi": hi, "lo": lo, "weights": [w[hi], w[lo]]})
+        if not (w[hi] > w[lo]):
+            rep.violation("G7", key, "Score ranks %s (%s) not above %s (%s)" % (hi, w[hi], lo, w[lo]), f.where())
+    if w["Private"] != 0:
+        rep.violation("G7", "Score:Private=0", "a Private node contributes %s to the score" % w["Private"], f.where())
+
+
 def run(rep):
     rep.explanation = (
         "Arm/term tables of the rewriting search read from the syn AST: positional agreement of selector and eliminator predicates (G1), "
@@ -548,4 +663,6 @@ def run(rep):
     g3(rep, src)
     g4(rep, src)
     g5(rep, src)
+    g6(rep, src)
+    g7(rep, src)
     rep.assume("Visited::get returns the value computed for that child (visitor.rs, not analysed)")
